@@ -52,11 +52,14 @@ var chain *base.SlotChain
 var caseNo int
 
 func genCase(rng *rand.Rand) *caseDesc {
-	c := &caseDesc{N: 1 + rng.Intn(20), Pct: vk.PickF(rng, 0, 0.01, 0.07, 0.1, 0.25, 0.29, 0.3, 0.34, 0.5, 0.57, 0.7, 0.9, 0.99, 1), Active: rng.Intn(3) == 0,
+	c := &caseDesc{N: 1 + rng.Intn(20), Pct: vk.PickF(rng, 0, 0.01, 0.07, 0.1, 0.25, 0.29, 0.3, 0.34, 0.5, 0.57, 0.7, 0.9, 0.99, 1, 0.666, 0.335, 0.125, 0.995, 0.005, 0.1666), Active: rng.Intn(3) == 0,
 		Retry: vk.PickU32(rng, 50, 200, 1000), Probe: uint64(vk.PickI(rng, 0, 0, 1))}
 	if run.Thorough() && rng.Intn(3) == 0 {
 		c.N = 1 + rng.Intn(40)
 		c.Pct = float64(rng.Intn(101)) / 100
+		if rng.Intn(2) == 0 {
+			c.Pct = float64(rng.Intn(1001)) / 1000
+		}
 	}
 	bad := map[int]bool{}
 	for i := 0; i < c.N; i++ {
@@ -64,7 +67,7 @@ func genCase(rng *rand.Rand) *caseDesc {
 			bad[i] = true
 		}
 	}
-	pcts := []float64{0, 0.07, 0.25, 0.29, 0.5, 0.57, 0.9, 1}
+	pcts := []float64{0, 0.07, 0.25, 0.29, 0.5, 0.57, 0.9, 1, 0.666, 0.335}
 	for i, n := 0, 40+rng.Intn(160); i < n; i++ {
 		if rng.Intn(40) == 0 {
 			// the rule is loaded again with only the ejection percentage changed
@@ -277,6 +280,14 @@ func recycleScenario(i int) {
 	// deployments at least the retry timeout lies between an ejection report and a successful probe, here virtual
 	// time would compress that gap to microseconds and the "recovered" mark would race with the task consumer)
 	settle()
+	if i%4 >= 2 {
+		// the rule is reloaded with another recycle interval while the two nodes wait for their recycling: whichever
+		// interval governs them from now on, a node that completes a request successfully must not be recycled
+		r2 := *rule
+		r2.RecycleIntervalS = 3
+		outlier.LoadRuleOfResource(res, &r2)
+		run.Count("recycler_scenarios_with_interval_reload", 1)
+	}
 	clk.AddMs(100)
 	call(healed, false)
 	call(healed, false)
@@ -346,7 +357,7 @@ func main() {
 	if os.Getenv("VERIF_MODE") == "recycle" {
 		run = vk.Start("C20", "recycle")
 		defer run.Finish()
-		run.Rule("scenario = two healthy bystander nodes; two nodes trip; one completes requests successfully afterwards (odd scenarios: and then fails and is reported again within the same interval), the other (control) never does; once the control node has been observed gone (recycle interval 1 s, real timer) the recovered node must still be known. distinct = scenarios.")
+		run.Rule("scenario = two healthy bystander nodes; two nodes trip; one completes requests successfully afterwards (odd scenarios: and then fails and is reported again within the same interval), the other (control) never does; in half of the scenarios the rule is reloaded with another recycle interval in between; once the control node has been observed gone (recycle interval 1 s, real timer) the recovered node must still be known. distinct = scenarios.")
 		run.Assume("real time.AfterFunc timers of the recycler; the verdict is only taken after the control node was observed recycled")
 		n := run.N(4, 20)
 		for i := 0; i < n; i++ {
